@@ -430,9 +430,37 @@ def conf_set(tier):
     return confs
 
 
+class VerifWarning(UserWarning):
+    """A configured Warning violation class."""
+
+
+class VerifError(Exception):
+    """A configured Exception violation class."""
+
+
+VIOLATION_CLASSES = {'VerifWarning': VerifWarning, 'VerifError': VerifError}
+
+# hints that may appear as keys / values of hint_overrides, by name
+OVERRIDE_HINTS = {
+    'int': int, 'str': str, 'float': float, 'bytes': bytes, 'UA': uc.UA, 'UB': uc.UB, 'None': None,
+    'List[int]': List[int], 'List[str]': List[str], 'int|None': Optional[int], 'str|bytes': Union[str, bytes],
+    'int|str': Union[int, str], 'Tuple[int,...]': Tuple[int, ...], 'Lit1': Literal[1], 'float|int': Union[float, int],
+    'Set[str]': Set[str], 'UA|None': Optional[uc.UA],
+}
+
+
 def make_conf(kw):
-    from beartype import BeartypeConf, BeartypeStrategy
+    """Configuration from a JSON-able kwargs dict (classes / hints / enums given by name)."""
+    from beartype import BeartypeConf, BeartypeStrategy, BeartypeHintOverrides, BeartypeViolationVerbosity
     kw = dict(kw)
     if 'strategy' in kw:
         kw['strategy'] = getattr(BeartypeStrategy, kw['strategy'])
+    if 'violation_verbosity' in kw:
+        kw['violation_verbosity'] = getattr(BeartypeViolationVerbosity, kw['violation_verbosity'])
+    for k in ('violation_type', 'violation_door_type', 'violation_param_type', 'violation_return_type'):
+        if isinstance(kw.get(k), str):
+            kw[k] = VIOLATION_CLASSES[kw[k]]
+    if 'hint_overrides' in kw:
+        kw['hint_overrides'] = BeartypeHintOverrides(
+            {OVERRIDE_HINTS[a]: OVERRIDE_HINTS[b] for a, b in kw['hint_overrides']})
     return BeartypeConf(**kw)
